@@ -407,6 +407,20 @@ judge(const struct fmt_s *f, int fi, int cal, int dt, int cc, const struct val_s
 	++*c_eval;
 	if (dadd_apply(e->v, units, &res) < 0) {
 	noparse:
+		/* reading: dadd documents (test/dtadd.026, dtadd.028 pin it) that a duration
+		 * component above 2^31-1 is rejected; such a printed duration cannot be applied */
+		for (const char *q = txt + neg; *q; q++) {
+			if (*q >= '0' && *q <= '9') {
+				char *qe;
+				long long x = strtoll(q, &qe, 10);
+				if (x > 2147483647LL) {
+					EX_CTR(c_big, "skipped:printed component exceeds 2^31-1, which dadd rejects by design (test/dtadd.026, dtadd.028)");
+					++*c_big;
+					return bad;
+				}
+				q = qe - 1;
+			}
+		}
 		slot = &vslot[VK_PARSE][dt][fi][cal][expect_neg][0];
 		if (!viol_fast(slot, ord) || replay_mode) {
 			MKCAS();
